@@ -44,54 +44,51 @@ def gen_behaviours(bench, workdir, overrides=None, workers=8, timeout=1800):
 # Random drivers (implementation -> specification direction)
 
 def random_cmds(bench, rng, length, profile=None):
-    """A random driver command sequence over the alphabet of the bench's MC constants (widened)."""
-    mcc = dict(bench["mc"])
+    """A random driver command sequence: the commands of the bench's alphabet with widened deadlines and
+    periods (the specification is not bounded in trace validation, only the TLC instances are)."""
+    mcc = bench["mc"]
+    prof = dict(sched=0.4, cancel=0.1, step=0.2, until=0.15, process=0.15, dmax=4, permax=3, untilmax=4)
     if profile:
-        mcc.update(profile)
-    nprog = len(bench["prog"])
-    progs = mcc.get("DrvProgs") or list(range(1, nprog + 1))
+        prof.update(profile)
     cmds = []
     now_guess = 0
+    kinds = [k for k in ("sched", "cancel", "step", "until", "process")
+             if (k != "sched" or mcc["SchedCmds"]) and (k != "cancel" or mcc["CancelSlots"])
+             and (k != "step" or mcc["StepOn"]) and (k != "until" or mcc["Untils"])
+             and (k != "process" or mcc["Procs"])]
+    weights = [prof[k] for k in kinds]
     for _ in range(length):
-        x = rng.random()
-        w = mcc.get("weights", dict(sched=0.4, cancel=0.1, step=0.2, until=0.15, process=0.15))
-        acc = 0
-        choice = "step"
-        for k, v in w.items():
-            acc += v
-            if x < acc:
-                choice = k
-                break
+        choice = rng.choices(kinds, weights)[0]
         if choice == "sched":
-            cls = rng.choice(mcc["SchedCls"])
-            kind = rng.choice(mcc["Kinds"])
-            absd = bool(mcc["AbsTimes"]) and rng.random() < 0.3
-            if absd:
-                d = rng.choice(mcc["AbsTimes"]) + (now_guess if rng.random() < 0.5 else 0)
-            else:
-                d = rng.choice(mcc["Deltas"])
-            per = rng.choice(mcc["Periods"]) if kind in ("periodic", "kperiodic") else 0
-            tgt = rng.choice(mcc["EvTargets"]) if cls == "ev" else rng.randint(1, len(bench["srcconn"]))
-            cmds.append(dict(c="sched", cls=cls, target=tgt, abs=absd, d=d, kind=kind, per=per,
-                             slot=rng.choice(mcc["SlotSet"]), prog=rng.choice(progs)))
+            c = dict(rng.choice(mcc["SchedCmds"]))
+            if rng.random() < 0.6:
+                if c["abs"]:
+                    c["d"] = now_guess + rng.randint(-1, prof["dmax"])
+                    if c["d"] < 0:
+                        c["d"] = 0
+                else:
+                    c["d"] = rng.randint(0, prof["dmax"]) if rng.random() < 0.15 else rng.randint(1, prof["dmax"])
+                if c["kind"] in ("periodic", "kperiodic") and c["per"] > 0:
+                    c["per"] = rng.randint(1, prof["permax"])
+            cmds.append(dict(c="sched", **c))
         elif choice == "cancel":
-            cmds.append(dict(c="cancel", slot=rng.choice(mcc["SlotSet"]),
+            cmds.append(dict(c="cancel", slot=rng.choice(mcc["CancelSlots"]),
                              how=rng.choice(["cancel", "cancel", "auto"])))
         elif choice == "step":
             cmds.append(dict(c="step"))
             now_guess += 1
         elif choice == "until":
-            absd = bool(mcc["UntilAbs"]) and rng.random() < 0.3
-            if absd:
-                d = rng.choice(mcc["UntilAbs"]) + (now_guess if rng.random() < 0.7 else 0)
-            else:
-                d = rng.choice(mcc["UntilDeltas"])
-                now_guess += d
-            cmds.append(dict(c="step_until", abs=absd, d=d))
+            u = dict(rng.choice(mcc["Untils"]))
+            if rng.random() < 0.5:
+                if u["abs"]:
+                    u["d"] = max(0, now_guess + rng.randint(-1, prof["untilmax"]))
+                else:
+                    u["d"] = rng.randint(0, prof["untilmax"])
+            if not u["abs"]:
+                now_guess += u["d"]
+            cmds.append(dict(c="step_until", **u))
         else:
-            kind = rng.choice(mcc["ProcKinds"])
-            tgt = rng.randint(1, len(bench["srcconn"])) if kind == "action" else rng.choice(mcc["ProcTargets"])
-            cmds.append(dict(c="process", kind=kind, target=tgt, prog=rng.choice(progs)))
+            cmds.append(dict(c="process", **rng.choice(mcc["Procs"])))
     return cmds
 
 
@@ -249,6 +246,8 @@ def _validate_chunk(bench, mod, cfg, chunk, workdir, tag, max_rejections, timeou
                 for e in r:
                     if "wild" not in e:
                         e = dict(e, wild=[])
+                    if e.get("ev") == "reset" and "ss" not in e:
+                        e = dict(e, ss=False)
                     f.write(json.dumps(e) + "\n")
         nev = sum(len(r) for r in remaining)
         res = run_tlc(mod, cfg, workdir, workers=1, timeout=timeout, dfs=True, heap="3g",
@@ -325,3 +324,20 @@ def validate(bench, traces, workdir, tag, max_rejections=10, invariants=PROP_INV
             for k in stats:
                 stats[k] += st[k]
     return accepted, rejections[:max_rejections], stats
+
+
+def silence_sync(run):
+    """Projection: drop the synchronize calls after the initial one (the specification then takes them
+    silently); used by the checks of properties that say nothing about the clock."""
+    out = []
+    seen_boot = False
+    for e in run:
+        if e.get("ev") == "reset":
+            out.append(dict(e, ss=True))
+        elif e.get("ev") == "sync":
+            if not seen_boot:
+                seen_boot = True
+                out.append(e)
+        else:
+            out.append(e)
+    return out
